@@ -108,5 +108,20 @@ CHECKS["C03"] = {
             "there); where the Python method lets a foreign protocol exception escape only non-acceptance is "
             "required of the compiled path",
 }
+CHECKS["C02"] = {
+    "category": "model_checking",
+    "technique": MC + " (history BFS with canonical-state dedup; oracle counts_as_change(mode, old, new) on stored objects)",
+    "text": "For 11 trait kinds (Any, Int, Str, Float, List, Instance, AdaptsTo, Supports, Expression, Event, "
+            "Event(Int)) x comparison modes none/identity/equality x 7 'which handler raises' variants: every "
+            "history up to depth 3 (4 thorough) of assignments from a pool (equal-but-not-identical objects, two NaN "
+            "objects, a value whose == raises, converted and rejected values) and default reads; after each step "
+            "all six handlers (static _x_changed, _anytrait_changed, two on_trait_change, two observe) must have "
+            "been called exactly once iff the statement's rule counts the step as a change, with old the object "
+            "stored before and new the object stored after; nothing for rejected assignments and default reads; "
+            "Events always with old Undefined; a raising handler changes nothing for the others.",
+    "note": "dispatch='same' only; depth bound 3/4 with dedup on (stored object, default materialised) which is the "
+            "whole state because registrations are fixed per configuration; for == raising only agreement between "
+            "mechanisms is required",
+}
 
 NOT_CLAIMED = {}
